@@ -738,7 +738,8 @@ func (m *nf) group(s *gt.Node) (*gt.Node, *Sch) {
 		sch.Steps = sc
 		for _, c := range sc {
 			if c.Kind == KUnknown {
-				m.exclude("unknown step inside a group (the group is downgraded)")
+				// the group stays a group (finding F15, repaired): the unknown step is kept verbatim inside it
+				m.feat("unknown-step-in-group")
 			}
 		}
 	} else {
